@@ -52,7 +52,7 @@ Height(st) == Max({ IF b = 0 THEN 0 ELSE Num(b) : b \in st.known })
 
 Init == /\ s = [known |-> {0}, ann |-> [p \in Peers |-> 0], anns |-> [b \in Blocks |-> <<>>], fet |-> [b \in Blocks |-> None],
                 junkA |-> [p \in Peers |-> 0], junkF |-> [p \in Peers |-> 0],
-                qd |-> [b \in Blocks |-> NoQ], qs |-> [p \in Peers |-> 0],
+                qd |-> [b \in Blocks |-> NoQ], qs |-> [p \in Peers |-> 0], fl |-> {},
                 handed |-> {}, bc |-> {}, dropped |-> {}, nacc |-> [b \in Blocks |-> 0]]
         /\ nops = 0
         /\ hist = IF GenMode = "free" THEN <<>> ELSE <<[op |-> "Init", peers |-> Peers, n |-> N, forkat |-> ForkAt, bad |-> BadHdr]>>
@@ -132,31 +132,39 @@ ImportF(st, b) ==
                                          !.bc = @ \cup {[b |-> b, ok |-> op.ok]}] ELSE s1
         IN fin(s2)
 
-\* one pass at the top of the loop plus the imports it starts (lowest number first; blocks of one pass do not depend on
-\* each other), repeated until nothing moves
-Fits(st) == { b \in Blocks : st.qd[b].o # None /\ Num(b) <= Height(st) + 1 }
-RECURSIVE Settle(_)
-Settle(st) ==
+\* One pass at the top of the loop: queued blocks that fit are popped lowest number first: too old or known -> forgetBlock,
+\* otherwise insert() is spawned (the block is "in flight": it keeps its queued entry until `done`).
+Fits(st) == { b \in Blocks : st.qd[b].o # None /\ b \notin st.fl /\ Num(b) <= Height(st) + 1 }
+RECURSIVE Pass(_)
+Pass(st) ==
    IF Fits(st) = {} THEN st
    ELSE LET b == CHOOSE x \in Fits(st) : \A y \in Fits(st) : Num(x) < Num(y) \/ (Num(x) = Num(y) /\ x <= y) IN
-        IF Num(b) + UD < Height(st) \/ b \in st.known THEN Settle(ForgetBlock(st, b))
-        ELSE Settle(ImportF(st, b))
+        IF Num(b) + UD < Height(st) \/ b \in st.known THEN Pass(ForgetBlock(st, b))
+        ELSE Pass([st EXCEPT !.fl = @ \cup {b}])
+\* Imports spawned by one pass run concurrently; each `done` is followed by another pass with the height of that moment.
+\* The set of quiescent states over every order in which the imports in flight can finish (a child popped because a sibling
+\* of its parent raised the height may run before its parent is in: it is then dropped, as in the code).
+RECURSIVE SettleS(_)
+SettleS(st) ==
+   LET s1 == Pass(st) IN
+   IF s1.fl = {} THEN {s1}
+   ELSE UNION { SettleS([ImportF(s1, b) EXCEPT !.fl = @ \ {b}]) : b \in s1.fl }
 
 \* ---------------------------------------------------------------- actions
 Notify(p, b, nk) ==
    /\ Tick([op |-> "Notify", p |-> p, b |-> b, nk |-> nk])
-   /\ s' = Settle(NotifyF(s, p, b, nk))
+   /\ s' \in SettleS(NotifyF(s, p, b, nk))
 Wave ==
    /\ (Due(s) # {} \/ \E p \in Peers : s.junkA[p] > 0)
    /\ Tick([op |-> "Wave"])
-   /\ \E w \in WaveS(s) : s' = Settle(w)
+   /\ \E w \in WaveS(s) : s' \in SettleS(w)
 Expire ==
    /\ (\E b \in Blocks : s.fet[b] # None) \/ (\E p \in Peers : s.junkF[p] > 0)
    /\ Tick([op |-> "Expire"])
-   /\ s' = Settle(ExpireF(s))
+   /\ s' \in SettleS(ExpireF(s))
 Deliver(p, b, ok) ==
    /\ Tick([op |-> "Deliver", p |-> p, b |-> b, ok |-> ok])
-   /\ s' = Settle(EnqueueF(s, p, b, ok))
+   /\ s' \in SettleS(EnqueueF(s, p, b, ok))
 
 \* the lowest block of the main chain that is not known yet (N + 1 when the chain is complete)
 NextWanted == IF (1..N) \subseteq s.known THEN N + 1 ELSE CHOOSE b \in 1..N : b \notin s.known /\ \A c \in 1..N : c \notin s.known => b <= c
